@@ -63,6 +63,10 @@ def body(case, ctx):
             g2 = AngularGrid(size=want_size, method=method, cache=False) if route == "size" else AngularGrid(degree=degree, method=method, cache=True)
             same = g2.points.shape == g.points.shape and np.array_equal(g2.points, g.points) and np.array_equal(g2.weights, g.weights)
             ctx.check(same and g2.degree == degree, "route-dependent-grid", f"{method} degree {degree}: grid via {route} differs from the cache=False grid")
+            # what the caller does with a grid it was handed (here: destroys its arrays in place) must not change
+            # the quadrature the next construction returns
+            g2.points[...] = 0.0
+            g2.weights[...] = -1.0
     ctx.check(abs(wsum - 4 * np.pi) <= TOL * 4 or not (worst <= TOL), "weights-do-not-sum-to-4pi", f"{method} {degree}: sum w = {wsum!r}")
 
 
